@@ -235,6 +235,36 @@ def _target_case(rng, tag="random"):
             "in": {"baits": baits, "annot": annot, "short": short, "split": split, "avg": frac(avg), "avg_f": avg}}
 
 
+def _shorten_case(rng, tag="shorten-run"):
+    """round 5: long runs of accession-style labels on one chromosome (no --split, no --annotate), so that the state
+    machine of `shorten_labels` is driven through many steps per case: groups of 1..6 consecutive baits sharing a
+    common token (sometimes only an `mRNA…` one: `filter_names` then falls back to the unfiltered set), ties between
+    shortest names, names with `|` at either end or several of them, empty names, trailing blanks."""
+    toks = ["mRNA|J1", "mRNA|J22", "mRNA", "mRNAx", "ens|E1", "ens|E22", "ref|G1", "ref|G2", "ccds|C1.1", "G1", "G2",
+            "A|", "|B", "x|y|z", "a|b", "||", "|", "ab", "abc", "", "q|", "TP53", "db|TP53", "db2|TP53"]
+    n = rng.randint(1, 24)
+    labels = []
+    while len(labels) < n:
+        common = rng.sample(toks, rng.choice([1, 1, 2, 3]))
+        for _ in range(rng.randint(1, 6)):
+            extra = rng.sample(toks, rng.randint(0, 3))
+            names = common + extra if rng.random() < 0.85 else extra or [rng.choice(toks)]
+            if rng.random() < 0.2:
+                names = names + [rng.choice(names)]  # a repeated name: the set drops it
+            rng.shuffle(names)
+            labels.append(",".join(names) + rng.choice(["", "", "", " ", "\t", " \t"]))
+    labels = labels[:n]
+    pos, baits = rng.randint(0, 50), []
+    for lab in labels:
+        w = rng.choice([0, 1, 5, 40, 300]) if rng.random() < 0.15 else rng.randint(1, 300)
+        baits.append(["chr1", pos, pos + w, lab])
+        pos += w + rng.choice([0, 0, 1, 30, 500])
+    avg = rng.choice([50, 200 / 0.75, 1000])
+    return {"op": "target", "tag": tag,
+            "in": {"baits": baits, "annot": None, "short": True, "split": rng.random() < 0.2, "avg": frac(avg),
+                   "avg_f": avg}}
+
+
 def corpus():
     return [
         # K: min > 3/4 avg: a 1500-base stretch is cut into two bins of 750 < 900
@@ -543,6 +573,12 @@ def gen_cases(rng, tier):
         c = _default_variant(c) or _boundary_variant(c) or c
         c = _cli_variant(c) or c
         cases.append(_rep_variant(c) or c)
+    # round 5: drawn AFTER the stream above, so that the cases of earlier rounds stay what they were
+    import random
+    rng2 = random.Random(rng.getrandbits(64))
+    for _ in range({"quick": 120, "thorough": 1200, "search": 120}[tier]):
+        c = _shorten_case(rng2, tier if tier == "search" else "shorten-run")
+        cases.append(_cli_variant(c) or c)
     return cases
 
 
